@@ -3,8 +3,9 @@
 import copy
 import datetime
 import itertools
+import re
 
-from ..common import load_impl
+from ..common import canon, has_host, load_impl
 from ..engine.shard import Acc, Family, split
 from ..gen import exprs as gx
 from ..ref import expr as rx
@@ -123,15 +124,24 @@ def check_matrix(case, acc):
         model = {'binary': {'op': op, 'left': {'variable': 'va'}, 'right': {'variable': 'vb'}}}
     want = rx.evaluate(model, {'va': a, 'vb': b})
     acc.states += 1
-    if want is rx.UNSPECIFIED:
-        acc.unspecified += 1
-        return ('unspecified',)
-    want_obs = obs(want, tags)
     runs = [
         ('evaluate_expression, operands in globals', guarded(bs.evaluate_expression, model, {'globals': {'va': a, 'vb': b}}, None, True)),
         ('evaluate_expression, operands in locals', guarded(bs.evaluate_expression, model, None, {'va': a, 'vb': b}, True)),
         ('script "return <expr>"', guarded(bs.execute_script, op_script(op, unary), {'globals': {'va': a, 'vb': b}})),
     ]
+    if want is rx.UNSPECIFIED:
+        # The value is open - but whatever comes back must still be a BareScript value (C05 owns escaping exceptions)
+        acc.unspecified += 1
+        for how, got in runs:
+            acc.evals += 1
+            acc.transitions += 1
+            if got[0] == 'value' and has_host(canon(got[1])):
+                acc.violation(dict(case, path=how), 'a BareScript value (the documentation leaves open which)', canon(got[1]),
+                              f'{how}: the operator yielded a host object that is not a BareScript value ({describe(op, a, b, unary)})')
+                break
+        return ('unspecified',)
+    want_obs = obs(want, tags)
+    lenient_ms = isinstance(want, str) and any(isinstance(x, datetime.datetime) and 0 < x.microsecond < 1000 for x in (a, b))
     failed = False
     for how, got in runs:
         acc.evals += 1
@@ -140,7 +150,10 @@ def check_matrix(case, acc):
         if failed:
             continue              # one recorded violation per cell (the first failing path)
         failed = True
-        if got[0] != 'value':
+        if got[0] == 'value' and lenient_ms and isinstance(got[1], str) and got[1] != want and zero_ms_dropped(got[1]) == want:
+            acc.count('zero_millisecond_field_printed')       # '.000' printed or omitted: not documented, both accepted
+            failed = False
+        elif got[0] != 'value':
             acc.violation(dict(case, path=how), want_obs, got, f'{how}: the operator raised instead of yielding a value')
         elif obs(got[1], tags) != want_obs:
             acc.violation(dict(case, path=how), want_obs, obs(got[1], tags), f'{how}: result differs from the operator table ({describe(op, a, b, unary)})')
@@ -149,6 +162,14 @@ def check_matrix(case, acc):
         else:
             failed = False
     return (op, rv.rtype(a), rv.rtype(b) if not unary else None, rv.rtype(want))
+
+
+_ZERO_MS = re.compile(r'(T\d\d:\d\d:\d\d)\.000(?=[+-]\d\d:\d\d)')
+
+
+def zero_ms_dropped(text):
+    """The text with an all-zero millisecond field of an ISO time removed."""
+    return _ZERO_MS.sub(r'\1', text)
 
 
 def describe(op, a, b, unary):
@@ -240,6 +261,8 @@ def run_impl(model, prefix, how, domain):
         res = guarded(bs.execute_script, {'statements': [{'return': {'expr': model}}]}, {'globals': glob})
     else:
         res = guarded(lambda: bs.execute_script(bs.parse_script('return ' + how + '\n'), {'globals': glob}))
+    if res[0] == 'value' and has_host(canon(res[1])):
+        res = ('host-object', canon(res[1]))
     return (('value', obs(res[1])) if res[0] == 'value' else res), tape.log, tape.reads
 
 
@@ -269,6 +292,8 @@ def run_effect(model, prefix, acc, case, paths=('expression',)):
             bad = 'order of leaf evaluation'
         elif got_reads != want_reads:
             bad = 'number of leaf evaluations'
+        elif got_res[0] == 'host-object':
+            bad = 'result (a host object that is not a BareScript value)'
         elif want_res != 'unspecified' and got_res != want_res:
             bad = 'result'
         if bad:
